@@ -122,7 +122,7 @@ def run_own(run, P):
                 run.violation('R-REPLAY-OWN', f['name'], ev['loc'], 'foreign-write:%s#%d' % (fld, ordinal[fld]),
                               '%s is written outside the replay-window functions (%s): the window and the highest sequence number no longer agree, '
                               'so an already accepted partial IV can be accepted again' % (short(l), ', '.join(sorted(OWNERS))))
-    run.require(n >= 5 or run.fixture_mode, 'R-REPLAY-OWN: only %d writers of the anti-replay fields found' % n)
+    run.require_count(n >= 5 or run.fixture_mode, 'R-REPLAY-OWN: only %d writers of the anti-replay fields found' % n)
 
 
 def run_rb(run, P):
